@@ -131,8 +131,7 @@ PROPS = {
               "pairs (ancestor/descendant/sibling/neighbour, negative f, zooms 26-35, empty lists, malformed IDs), both "
               "argument orders.",
         note="Lean kernel + propext/Classical.choice/Quot.sound; model tied by sampling; radix tree abstracted. Genuine defects "
-             "D1, D3, D4, D7 were repaired by fix: commits; D14 (array forms stop at the first overlapping pair) is outside "
-             "this property (belongs to C15).",
+             "D1, D3, D4, D7, D14 were repaired by fix: commits.",
         technique="Lean 4 theorems over an executable model + differential correspondence with the Go code",
     ),
     "C08": dict(
@@ -256,8 +255,8 @@ PROPS = {
               "strings; the driver checks on the implementation's own answer that a malformed ID never yields a non-error "
               "result and that the latitude is cut toward zero by less than 1e-10 degrees.",
         note="'no string panics' is a theorem about the model; for the Go code it is as strong as the malformed generator "
-             "(recover maps panics to PANIC, which no model produces). Defects D3, D6, D7, D8, D13 repaired by fix: commits; "
-             "D14 (array overlap early return) and D17 (SetLat rounding) are known findings. Line/corridor error paths are "
+             "(recover maps panics to PANIC, which no model produces). Defects D3, D6, D7, D8, D13, D14 repaired by fix: commits; "
+             "D17 (SetLat rounding) is a known finding. Line/corridor error paths are "
              "covered under C06/C14.",
         technique="Lean 4 theorems over executable models + malformed-input differential stream + checker on implementation answers",
     ),
@@ -268,7 +267,7 @@ PROPS = {
                   ("det_qv", 800, 4000)],
         trusted_base=COMMON_TB + ["Go map iteration order only permutes de-duplicated results (the models fix one order; "
                                   "comparison is on sorted results)"],
-        assumptions=["valid argument lists (an invalid element makes the array overlap checks order-dependent: known finding D14 of C15)"],
+        assumptions=["valid argument lists"],
         claim="Theorems (Props/C16.lean): membership in the result of zoom change, merge, N-layer neighbourhood, array overlap, "
               "tile conversion, Unique and Union depends only on the set of inputs (SameSet ... -> SameSet ...), hence is "
               "invariant under permutation and repetition of the input list, and the de-duplicated results are Nodup; the "
